@@ -5,6 +5,7 @@ struct E {
     cancelled: bool,
     period: u64,    // 0 = one-shot
     resched: u64,   // 0 = the handler schedules nothing; k = it schedules a follow-up k seconds later
+    pend: bool,     // the action's future is Pending on its first poll
 }
 #[derive(Clone, Debug, PartialEq)]
 enum Op {
@@ -29,8 +30,8 @@ fn scenario_json(s: &Scenario) -> String {
         .iter()
         .map(|e| {
             format!(
-                "{{\"time\":{},\"origin\":{},\"cancelled\":{},\"period\":{},\"resched\":{}}}",
-                e.time, e.origin, e.cancelled, e.period, e.resched
+                "{{\"time\":{},\"origin\":{},\"cancelled\":{},\"period\":{},\"resched\":{},\"pend\":{}}}",
+                e.time, e.origin, e.cancelled, e.period, e.resched, e.pend
             )
         })
         .collect();
@@ -76,6 +77,7 @@ fn build(sc: &Scenario) -> Simulation {
                     period: if e.period > 0 { Some(Duration::from_secs(e.period)) } else { None },
                     resched: e.resched,
                     origin: e.origin,
+                    pend: e.pend,
                     env: env.clone(),
                 },
             );
@@ -202,7 +204,7 @@ fn run_scenario(sc: &Scenario) -> Vec<Failure> {
         Op::Process => {
             let env = Env { queue: sim.scheduler_queue.clone(), time: sim.time.clone() };
             sim.process(Action { series: 999, deadline: Arc::new(AtomicU64::new(START)), cancelled: Arc::new(AtomicU64::new(0)),
-                                 period: None, resched: 0, origin: 0, env })
+                                 period: None, resched: 0, origin: 0, pend: false, env })
         }
     }));
     let log = EXEC_LOG.lock().unwrap().clone();
@@ -360,14 +362,16 @@ fn for_each_entries(n: usize, dom: &[E], cur: &mut Vec<E>, f: &mut dyn FnMut(&Ve
         cur.pop();
     }
 }
-fn domain(times: &[u64], periods: &[u64], rescheds: &[u64]) -> Vec<E> {
+fn domain(times: &[u64], periods: &[u64], rescheds: &[u64], pends: &[bool]) -> Vec<E> {
     let mut d = Vec::new();
     for &time in times {
         for origin in 0..2usize {
             for cancelled in [false, true] {
                 for &period in periods {
                     for &resched in rescheds {
-                        d.push(E { time, origin, cancelled, period, resched });
+                        for &pend in pends {
+                            d.push(E { time, origin, cancelled, period, resched, pend });
+                        }
                     }
                 }
             }
@@ -395,7 +399,7 @@ fn main() {
         }
     };
     // (a) up to 2 (thorough: 3) entries over the full attribute domain, every operation, both task orders
-    let full = domain(&[1, 2, 3], &[0, 1, 2], &[0, 1]);
+    let full = domain(&[1, 2, 3], &[0, 1, 2], &[0, 1], &[false, true]);
     let ops = [Op::Step, Op::StepUntil(2), Op::StepUntil(4), Op::StepUntil(0)];
     let nmax = if thorough { 3 } else { 2 };
     for n in 0..=nmax {
@@ -408,7 +412,7 @@ fn main() {
         });
     }
     // (b) 3 entries, reduced domain
-    let mid = domain(&[1, 2], &[0, 1], &[0]);
+    let mid = domain(&[1, 2], &[0, 1], &[0], &[false, true]);
     for_each_entries(3, &mid, &mut Vec::new(), &mut |es| {
         for op in &ops {
             for lifo in [false, true] {
@@ -417,10 +421,12 @@ fn main() {
         }
     });
     // (c) 4 and 5 (thorough: 6) one-shot entries: same-time / same-origin groups with cancelled members
-    let small = domain(&[1, 2], &[0], &[0]);
+    let small = domain(&[1, 2], &[0], &[0], &[false]);
+    let small_p = domain(&[1, 2], &[0], &[0], &[false, true]);
     let kmax = if thorough { 6 } else { 5 };
     for n in 4..=kmax {
-        for_each_entries(n, &small, &mut Vec::new(), &mut |es| {
+        let dom = if n == 4 { &small_p } else { &small };
+        for_each_entries(n, dom, &mut Vec::new(), &mut |es| {
             for op in [Op::Step, Op::StepUntil(3)] {
                 for lifo in [false, true] {
                     run(&Scenario { entries: es.clone(), op: op.clone(), lifo, terminated: false, lag: None, tolerance: None });
@@ -453,7 +459,7 @@ fn main() {
         })
         .collect();
     println!("{{\"scenarios\":{},\"samples\":[{}],\"bound\":\"{}\",\"failures\":[{}]}}", total, samples.join(","),
-        if thorough { "<=3 entries full domain; 3 entries reduced; 4..6 one-shot entries; faults/terminated <=2 entries" }
-        else { "<=2 entries full domain; 3 entries reduced; 4..5 one-shot entries; faults/terminated <=2 entries" },
+        if thorough { "<=3 entries full domain (3 deadlines x 2 origins x cancelled x 3 periods x handler-reschedules x pending-first-poll); 3 entries reduced; 4..6 one-shot entries; faults/terminated <=2 entries" }
+        else { "<=2 entries full domain (3 deadlines x 2 origins x cancelled x 3 periods x handler-reschedules x pending-first-poll); 3 entries reduced; 4..5 one-shot entries; faults/terminated <=2 entries" },
         fs.join(","));
 }
